@@ -448,4 +448,12 @@ class Effects:
                     if r and any(self.taint(a.value if isinstance(a, ast.Starred) else a, f) == PR
                                  for a in list(x.args) + [kw.value for kw in x.keywords]):
                         out.append(Retention(f, x.lineno, norm(x)[:90], r, 'per-request argument'))
+                # (c) interning registries of the standard library: logging keeps every logger ever requested, keyed by its
+                #     name, in Logger.manager.loggerDict for the life of the process
+                if isinstance(x, ast.Call) and x.args:
+                    d = dotted(x.func) or ''
+                    is_reg = d in ('logging.getLogger',) or (isinstance(x.func, ast.Attribute) and x.func.attr == 'getChild')
+                    if is_reg and self.taint(x.args[0], f) == PR:
+                        out.append(Retention(f, x.lineno, norm(x)[:90], 'logging logger registry (Logger.manager.loggerDict)',
+                                             norm(x.args[0])[:50] + ' (a logger is created and kept for every distinct per-request name)'))
         return out
